@@ -17,6 +17,7 @@ from __future__ import annotations
 import ast
 from typing import Dict, List, Optional, Tuple
 
+from engines import jobgraphfacts as jg
 from engines import pyfacts as pf
 from engines import sqlfront as sf
 from engines import sqlrules as sr
@@ -37,132 +38,243 @@ TALLY = 'job_groups_n_jobs_in_complete_states'
 TERMINAL = ['Success', 'Failed', 'Error', 'Cancelled']
 
 
-def r12(ctx: Ctx, prog: sf.SqlProgram) -> None:
+LOCKS = ('LOCK IN SHARE MODE', 'FOR SHARE', 'FOR UPDATE')
+CLOSURE = 'job_group_self_and_ancestors'
+CATS = ('n_completed', 'n_succeeded', 'n_failed', 'n_cancelled')
+WANT_DELTA = {'Success': (1, 1, 0, 0), 'Failed': (1, 0, 1, 0), 'Error': (1, 0, 1, 0), 'Cancelled': (1, 0, 0, 1)}
+STATES = ['Pending', 'Ready', 'Creating', 'Running', 'Success', 'Failed', 'Error', 'Cancelled']
+
+
+def _closure_rows(batch: int, parent: Dict[int, Optional[int]]) -> List[Dict[str, int]]:
+    out = []
+    for g in parent:
+        a, lvl = g, 0
+        while a is not None:
+            out.append(dict(batch_id=batch, job_group_id=g, ancestor_id=a, level=lvl))
+            a, lvl = parent[a], lvl + 1
+    return out
+
+
+def r123(ctx: Ctx, prog: sf.SqlProgram) -> None:
+    """COMPOSITE effect of the effective mark_job_complete (mark_job_group_complete and any other callee inlined) on the tally table,
+    job_groups and batches, by interpretation over a micro-world (engines/jobgraphfacts.py): batch 1 with groups 0 <- 1 <- 2 and
+    0 <- 3 (the job is in group 2), batch 2 with look-alike rows; every consistent combination of `this is / is not the last
+    unfinished job` along the ancestor chain; every terminal new_state; every prior state of the job and attempt-id relation.
+    Required with the job's own terminal transition, and only then: the four tallies of group 2, 1 and 0 (and of no other row) move by
+    the partition table; each of these groups is marked complete (state, time_completed) iff its new n_completed equals its own
+    n_jobs; the batch row likewise against the root tally; everything else is untouched."""
     r = prog.routine('mark_job_complete')
-    ups = [st for st in sf.all_statements(r.ast.body) if st.kind == 'update' and sf.table_names(st.frm)[:1] == [TALLY]]
-    ctx.need(len(ups) == 1, 'mark_job_complete: tally update not found exactly once')
-    st = ups[0]
-    cons = f'{r.file}::mark_job_complete::tally update'
-    der = [t for t in sf.from_tables(st.frm) if t.kind == 'derived']
-    ok = False
-    if len(der) == 1:
-        sub = der[0].select
-        al = der[0].alias.lower()
-        sel_cols = sorted(text(c).lower().split('.')[-1] for c, _ in sub.cols)
-        on = [text(c).lower() for j in st.frm.joins for c in sf.conjuncts(j.on)]
-        # the group of the job: variable bound from jobs.job_group_id for (in_batch_id, in_job_id)
-        gvar = None
-        for q in sf.all_statements(r.ast.body):
-            if q.kind == 'select' and q.into and q.frm is not None and sf.table_names(q.frm) == ['jobs'] and sr.has_eq(q.where, 'batch_id', 'in_batch_id') and sr.has_eq(q.where, 'job_id', 'in_job_id'):
-                for (c, _), v in zip(q.cols, q.into):
-                    if c.kind == 'col' and c.parts[-1].lower() == 'job_group_id':
-                        gvar = text(v).lower()
-        ok = sf.table_names(sub.frm) == ['job_group_self_and_ancestors'] and sel_cols == ['ancestor_id', 'batch_id'] and gvar is not None and \
-            sr.has_eq(sub.where, 'batch_id', 'in_batch_id') and sr.has_eq(sub.where, 'job_group_id', gvar) and \
-            f'({TALLY}.id = {al}.batch_id)' in on and f'({TALLY}.job_group_id = {al}.ancestor_id)' in on and st.where is None
-    ctx.check(ok, 'R1', cons + '::ancestor fan-out', 'the tallies are not incremented for exactly the job\'s own group and all its ancestors (rows of job_group_self_and_ancestors for the job\'s group, joined by ancestor_id)',
-              r.file, r.line_of(st))
-    sets = {c.parts[-1].lower(): v for c, v in st.sets if c.kind == 'col'}
-    ctx.need(set(sets) == {'n_completed', 'n_cancelled', 'n_failed', 'n_succeeded'}, f'tally columns are {sorted(sets)}')
-    want = {'Success': (1, 1, 0, 0), 'Failed': (1, 0, 1, 0), 'Error': (1, 0, 1, 0), 'Cancelled': (1, 0, 0, 1)}
+    params = jg.routine_params(prog, 'mark_job_complete')
+    ctx.need({'in_batch_id', 'in_job_id', 'new_state', 'new_timestamp'} <= set(params), f'mark_job_complete: parameters {params}')
+    tabs = ['jobs', 'job_parents', 'job_groups', TALLY, 'batches', CLOSURE]
+    jg.need_no_trigger_feedback(prog, tabs)
+    schema = jg.full_schema(prog)
+    cons = f'{r.file}::mark_job_complete'
+    tally_writers = [st for rr in ('mark_job_complete', 'mark_job_group_complete') if rr in prog.routines for st in sf.all_statements(prog.routines[rr].ast.body)
+                     if st.kind == 'update' and TALLY in [t.lower() for t, _ in sf.written_tables(st)]]
+    line = r.line_of(tally_writers[0]) if tally_writers and tally_writers[0] in list(sf.all_statements(r.ast.body)) else r.line
+    parent1 = {0: None, 1: 0, 2: 1, 3: 0}
+    parent2 = {0: None, 2: 0}
+    base_tally = {0: (7, 5, 1, 1), 1: (4, 3, 1, 0), 2: (2, 2, 0, 0), 3: (1, 1, 0, 0)}
+
+    def world(own_state, own_attempt, gaps):
+        g = dict(gaps)
+        g[3] = 1
+        jobs = [dict(batch_id=1, job_id=5, state=own_state, n_pending_parents=0, cancelled=0, always_run=0, attempt_id=own_attempt, job_group_id=2),
+                dict(batch_id=2, job_id=5, state='Running', n_pending_parents=0, cancelled=0, always_run=0, attempt_id='a', job_group_id=2)]
+        jgs, tal = [], []
+        for gid in (0, 1, 2, 3):
+            jgs.append(dict(batch_id=1, job_group_id=gid, state='running', n_jobs=base_tally[gid][0] + g[gid], time_completed=None))
+            tal.append(dict(id=1, job_group_id=gid, **dict(zip(CATS, base_tally[gid]))))
+        for gid in (0, 2):
+            jgs.append(dict(batch_id=2, job_group_id=gid, state='running', n_jobs=base_tally[gid][0] + 1, time_completed=None))
+            tal.append(dict(id=2, job_group_id=gid, **dict(zip(CATS, base_tally[gid]))))
+        rows = {'jobs': jobs, 'job_parents': [], 'job_groups': jgs, TALLY: tal,
+                'batches': [dict(id=1, state='running', n_jobs=base_tally[0][0] + g[0], time_completed=None), dict(id=2, state='running', n_jobs=base_tally[0][0] + 1, time_completed=None)],
+                CLOSURE: _closure_rows(1, parent1) + _closure_rows(2, parent2)}
+        return jg.World(schema, rows)
+
+    gap_sets = [{2: 1, 1: 1, 0: 1}, {2: 1, 1: 1, 0: 2}, {2: 1, 1: 2, 0: 2}, {2: 2, 1: 2, 0: 2}, {2: 1, 1: 2, 0: 3}]
+    grid = [(os_, 'a', gs) for os_ in STATES for gs in gap_sets] + [(os_, at, gap_sets[0]) for os_ in STATES for at in (None, 'b')]
+    fails: Dict[str, str] = {}
+    n_cases = n_trans = 0
+    TS = 1000
     for ns in TERMINAL:
-        def env(c: N):
-            t = text(c).lower()
-            if t == 'new_state':
-                return ns
-            return 10  # current counter value
-        got = tuple(ev(sets[k], env) - 10 for k in ('n_completed', 'n_succeeded', 'n_failed', 'n_cancelled'))
-        ctx.check(got == want[ns], 'R2', cons + f'::partition {ns}', f'a job ending {ns} changes (completed, succeeded, failed, cancelled) by {got}, expected {want[ns]}', r.file, r.line_of(st))
+        for own_state, own_attempt, gaps in grid:
+            w = world(own_state, own_attempt, gaps)
+            before = w.snapshot()
+            it = jg.Interp(prog, w)
+            it.call('mark_job_complete', {'in_batch_id': 1, 'in_job_id': 5, 'new_state': ns, 'in_attempt_id': 'a', 'new_timestamp': TS})
+            n_cases += 1
+            after = w.rows
+            for t_ in (TALLY, 'job_groups', 'batches'):
+                for row in after[t_]:
+                    for col, v in row.items():
+                        ctx.need(v is not jg.UNK, f'mark_job_complete: {t_}.{col} receives a value the model cannot determine')
+            transition = before['jobs'][0]['state'] != after['jobs'][0]['state'] and after['jobs'][0]['state'] in TERMINAL
+            hist = (f'job of group 2 (ancestors 1, 0) in state {own_state}, attempt_id {"matching" if own_attempt == "a" else ("NULL" if own_attempt is None else "of another attempt")}, reported {ns}; '
+                    f'unfinished jobs before the call: group 2: {gaps[2]}, group 1: {gaps[1]}, group 0 / batch: {gaps[0]}')
+            tb = {(x['id'], x['job_group_id']): x for x in before[TALLY]}
+            ta = {(x['id'], x['job_group_id']): x for x in after[TALLY]}
+            gb = {(x['batch_id'], x['job_group_id']): x for x in before['job_groups']}
+            ga = {(x['batch_id'], x['job_group_id']): x for x in after['job_groups']}
+            bb = {x['id']: x for x in before['batches']}
+            ba = {x['id']: x for x in after['batches']}
+            path = [(1, 2), (1, 1), (1, 0)] if transition else []
+            if transition:
+                n_trans += 1
+            # tallies
+            for key in tb:
+                delta = tuple(ta[key][c_] - tb[key][c_] for c_ in CATS)
+                if key in path:
+                    if delta[0] != 1:
+                        fails.setdefault('fanout', f'{hist}: n_completed of group {key[1]} changes by {delta[0]}, expected +1 (the job\'s own group and every ancestor count it exactly once)')
+                    if delta != WANT_DELTA[ns]:
+                        fails.setdefault(f'partition {ns}', f'{hist}: (n_completed, n_succeeded, n_failed, n_cancelled) of group {key[1]} change by {delta}, expected {WANT_DELTA[ns]}')
+                elif any(delta):
+                    if transition:
+                        fails.setdefault('fanout', f'{hist}: tallies of group {key[1]} of batch {key[0]}, which is not the job\'s group or an ancestor of it, change by {delta}')
+                    else:
+                        fails.setdefault('transition', f'{hist}: the job makes no terminal transition in this call, yet the tallies of group {key[1]} of batch {key[0]} change by {delta}')
+            # group completion
+            for key in gb:
+                chg = {c_: (gb[key][c_], ga[key][c_]) for c_ in ('state', 'time_completed', 'n_jobs') if gb[key][c_] != ga[key][c_]}
+                if key in path:
+                    done = ta[key]['n_completed'] == ga[key]['n_jobs'] and tb[key]['n_completed'] + 1 == gb[key]['n_jobs']
+                    really_done = tb[key]['n_completed'] + 1 == gb[key]['n_jobs']
+                    want = {'state': ('running', 'complete'), 'time_completed': (None, TS)} if really_done else {}
+                    if chg != want:
+                        fails.setdefault('group completion', f'{hist}: group {key[1]} (n_jobs {gb[key]["n_jobs"]}, n_completed {tb[key]["n_completed"]} before) changes {chg or "nothing"}; expected '
+                                         f'{want or "no change (it still has unfinished jobs)"} - a group is complete exactly when its own n_completed, after counting this job, equals its own n_jobs, '
+                                         'and every group on the ancestor chain must be examined')
+                elif chg:
+                    fails.setdefault('others' if transition else 'transition', f'{hist}: job_groups row of group {key[1]} of batch {key[0]}, '
+                                     f'{"which is not on the job\'s ancestor chain" if transition else "although the job makes no terminal transition in this call"}, changes {chg}')
+            for key in bb:
+                chg = {c_: (bb[key][c_], ba[key][c_]) for c_ in ('state', 'time_completed', 'n_jobs') if bb[key][c_] != ba[key][c_]}
+                if key == 1 and transition:
+                    really_done = tb[(1, 0)]['n_completed'] + 1 == bb[1]['n_jobs']
+                    want = {'state': ('running', 'complete'), 'time_completed': (None, TS)} if really_done else {}
+                    if chg != want:
+                        fails.setdefault('batch completion', f'{hist}: batch row (n_jobs {bb[1]["n_jobs"]}, root n_completed {tb[(1, 0)]["n_completed"]} before) changes {chg or "nothing"}; expected '
+                                         f'{want or "no change"} - the batch is complete exactly when the root tally, after counting this job, equals batches.n_jobs')
+                elif chg:
+                    fails.setdefault('others' if transition else 'transition', f'{hist}: batches row {key} changes {chg}')
+    ctx.need(n_trans > 0, 'mark_job_complete: no modelled call makes the job\'s own terminal transition')
+    detail = {'cases': n_cases, 'with_transition': n_trans}
+    ctx.check('fanout' not in fails, 'R1', f'{cons}::tally update::ancestor fan-out', fails.get('fanout', ''), r.file, line, detail=detail)
+    for ns in TERMINAL:
+        ctx.check(f'partition {ns}' not in fails, 'R2', f'{cons}::tally update::partition {ns}', fails.get(f'partition {ns}', ''), r.file, line, detail=detail)
+    mg = prog.routines.get('mark_job_group_complete')
+    gfile, gline = (mg.file, mg.line) if mg is not None else (r.file, r.line)
+    ctx.check('group completion' not in fails, 'R3', f'{cons}::group completion', fails.get('group completion', ''), gfile, gline, detail=detail)
+    ctx.check('batch completion' not in fails, 'R3', f'{cons}::batch completion', fails.get('batch completion', ''), r.file, r.line, detail=detail)
+    ctx.check('others' not in fails, 'R3', f'{cons}::other groups untouched', fails.get('others', ''), r.file, r.line, detail=detail)
+    ctx.check('transition' not in fails, 'R3', f'{cons}::only with the transition', fails.get('transition', ''), r.file, r.line, detail=detail)
+    ctx.unit('completion_model_cases', n_cases)
 
 
-def r3(ctx: Ctx, prog: sf.SqlProgram) -> None:
-    r = prog.routine('mark_job_group_complete')
-    a = r.ast
-    cons = f'{r.file}::mark_job_group_complete'
-    cur = [st for st in a.body if st.kind == 'declare_cursor']
-    ctx.need(len(cur) == 1, 'mark_job_group_complete: cursor not found')
-    cs_ = cur[0].select
-    ok_cur = sf.table_names(cs_.frm) == ['job_group_self_and_ancestors'] and [text(c).lower().split('.')[-1] for c, _ in cs_.cols] == ['ancestor_id'] and \
-        sr.has_eq(cs_.where, 'batch_id', 'in_batch_id') and sr.has_eq(cs_.where, 'job_group_id', 'in_job_group_id') and cs_.limit is None and len(sf.conjuncts(cs_.where)) == 2
-    ctx.check(ok_cur, 'R3', cons + '::cursor', 'the cursor does not range over all self-and-ancestor groups of the finished job\'s group', r.file, r.line_of(cur[0]))
-    loops = [st for st in a.body if st.kind == 'loop']
-    ctx.need(len(loops) == 1, 'mark_job_group_complete: loop not found')
-    lp = loops[0]
-    fetch = [s for s in lp.body if s.kind == 'fetch']
-    leaves = [(s, g) for s, g in sf.guarded_statements(lp.body) if s.kind == 'leave']
-    handler = [st for st in a.body if st.kind == 'declare_handler']
-    ok_loop = len(fetch) == 1 and lp.body[0] is fetch[0] and len(leaves) == 1 and [(text(c), p) for c, p in leaves[0][1]] == [('done', True)] and \
-        len(handler) == 1 and handler[0].condition == 'NOT FOUND' and text(handler[0].stmt).lower() == 'set done = true' and handler[0].action == 'CONTINUE'
-    ctx.check(ok_loop, 'R3', cons + '::loop exhausts ancestors', 'the loop can end before every ancestor group has been examined (LEAVE must depend only on the NOT FOUND handler flag)', r.file, r.line_of(lp))
-    cvar = text(fetch[0].into[0]).lower() if fetch else '?'
-    bound: Dict[str, Tuple[str, str, N]] = {}
-    for st in sf.all_statements(lp.body):
-        if st.kind == 'select' and st.into and st.frm is not None and len(sf.table_names(st.frm)) == 1:
-            for (c, _), v in zip(st.cols, st.into):
-                if c.kind == 'col' and sr.is_var(v):
-                    bound[v.parts[0].lower()] = (sf.table_names(st.frm)[0].lower(), c.parts[-1].lower(), st)
-    ups = [(s, g) for s, g in sf.guarded_statements(lp.body) if s.kind == 'update' and sf.table_names(s.frm)[:1] == ['job_groups']]
-    ctx.need(len(ups) == 1, 'mark_job_group_complete: UPDATE job_groups not found')
-    up, guard = ups[0]
-    okc = False
-    for c, pol in guard:
-        if pol and c.kind == 'bin' and c.op == '=':
-            l, rr = text(c.left).lower(), text(c.right).lower()
-            if l in bound and rr in bound:
-                x, y = bound[l], bound[rr]
-                pair = {x[:2], y[:2]}
-                okc = pair == {(TALLY, 'n_completed'), ('job_groups', 'n_jobs')} and all(
-                    (sr.has_eq(z[2].where, 'id', 'in_batch_id') or sr.has_eq(z[2].where, 'batch_id', 'in_batch_id')) and sr.has_eq(z[2].where, 'job_group_id', cvar) for z in (x, y))
-    keyed = sr.has_eq(up.where, 'batch_id', 'in_batch_id') and sr.has_eq(up.where, 'job_group_id', cvar)
-    setsok = {c.parts[-1].lower(): text(v) for c, v in up.sets if c.kind == 'col'}
-    ctx.check(okc and keyed and setsok.get('state') == "'complete'", 'R3', cons + '::like with like', 'a group is marked complete by a test other than n_completed(group) = n_jobs(group) of the very group being updated',
-              r.file, r.line_of(up))
-    # the counts compared are read with a lock held to the end of the transaction: otherwise a commit that adds jobs can slip in
-    # between the read and the `complete` write and the fresh `running` state is overwritten
-    LOCKS = ('LOCK IN SHARE MODE', 'FOR SHARE', 'FOR UPDATE')
-    for st in sf.all_statements(lp.body):
-        if st.kind == 'select' and st.into and st.frm is not None and sf.table_names(st.frm) == ['job_groups'] and any(c.kind == 'col' and c.parts[-1].lower() == 'n_jobs' for c, _ in st.cols):
-            ctx.check(st.lock in LOCKS, 'R3', cons + '::n_jobs read is locking', 'job_groups.n_jobs is read without a lock: a concurrent commit_batch_update may add jobs after the read, '
-                      'and the group is then marked complete although it was just re-opened', r.file, r.line_of(st))
-    r2_ = prog.routine('mark_job_complete')
-    nj = [st for st in sf.all_statements(r2_.ast.body) if st.kind == 'select' and st.into and st.frm is not None and sf.table_names(st.frm) == ['batches']
-          and any(c.kind == 'col' and c.parts[-1].lower() == 'n_jobs' for c, _ in st.cols)]
-    ctx.need(len(nj) == 1, 'mark_job_complete: read of batches.n_jobs not found')
-    ctx.check(nj[0].lock in LOCKS, 'R3', f'{r2_.file}::mark_job_complete::n_jobs read is locking', 'batches.n_jobs is read without a lock: commit_batch_update of a later update can commit between '
-              'this read and `UPDATE batches SET state = complete`; the stale count then overwrites the re-opened batch (complete with unfinished jobs that are never scheduled)',
-              r2_.file, r2_.line_of(nj[0]))
-    # called from mark_job_complete with the job's group
-    calls = [s for s in sf.all_statements(r2_.ast.body) if s.kind == 'call' and s.name.lower() == 'mark_job_group_complete']
-    ctx.check(len(calls) == 1 and [text(x).lower() for x in calls[0].args][:2] == ['in_batch_id', 'cur_job_group_id'], 'R3', f'{r2_.file}::mark_job_complete::CALL mark_job_group_complete',
-              'group completion is not evaluated for the finished job\'s own group', r2_.file, r2_.line)
+def r3_locks(ctx: Ctx, prog: sf.SqlProgram) -> None:
+    """The job counts compared in the completion tests are read with a lock held to the end of the transaction: otherwise a commit that
+    adds jobs can slip in between the read and the `complete` write and the fresh `running` state is overwritten."""
+    todo = ['mark_job_complete']
+    seen: List[str] = []
+    while todo:
+        name = todo.pop()
+        if name in seen or name not in prog.routines:
+            continue
+        seen.append(name)
+        for st in sf.all_statements(prog.routines[name].ast.body):
+            if st.kind == 'call':
+                todo.append(st.name)
+    found = {'job_groups': 0, 'batches': 0}
+    for name in seen:
+        rr = prog.routines[name]
+        for st in sf.all_statements(rr.ast.body):
+            sels = [st] if st.kind == 'select' else ([st.select] if st.kind == 'declare_cursor' else [])
+            for q in sels:
+                if q.frm is None or not (q.into or st.kind == 'declare_cursor'):
+                    continue
+                tn = [t.lower() for t in sf.table_names(q.frm)]
+                for tbl in ('job_groups', 'batches'):
+                    if tbl in tn and any(x.kind == 'col' and x.parts[-1].lower() == 'n_jobs' for c, _ in q.cols for x in c.walk()):
+                        found[tbl] += 1
+                        what = 'job_groups.n_jobs' if tbl == 'job_groups' else 'batches.n_jobs'
+                        ctx.check(q.lock in LOCKS, 'R3', f'{rr.file}::{name}::n_jobs read is locking', f'{what} is read without a lock: a concurrent commit_batch_update of a later update can add jobs between this read '
+                                  'and the `complete` write; the stale count then overwrites the re-opened row (complete with unfinished jobs that are never reported running)', rr.file, rr.line_of(st))
+    ctx.need(found['job_groups'] >= 1 and found['batches'] >= 1, f'completion tests: reads of n_jobs INTO variables not found in {seen} (found {found}); the comparison may be done inside one statement, '
+             'whose locking this rule does not analyse')
 
 
 def r4(ctx: Ctx, prog: sf.SqlProgram) -> None:
+    """Re-opening, COMPOSITE effect of the effective commit_batch_update on batches / job_groups (micro-world interpretation): update 2 of
+    batch 1 stages 5 jobs (3 in group 2 below group 1, 1 in group 3, 1 in the root; two instance collections, two tokens); an uncommitted
+    update 3 and batch 2 have staging rows of their own.  Required: batch row running, time_completed NULL, n_jobs + 5; each staged group
+    running, time_completed NULL, n_jobs + the sum of ITS staging rows of THIS update; unstaged groups, other batch untouched; a second
+    call (already committed) changes nothing."""
     r = prog.routine('commit_batch_update')
-    for st, guard in sf.guarded_statements(r.ast.body):
-        if st.kind != 'update':
-            continue
-        first = sf.table_names(st.frm)[:1]
-        if first == ['batches']:
-            d = {c.parts[-1].lower(): text(v).lower() for c, v in st.sets if c.kind == 'col'}
-            ok = d.get('state') == "'running'" and d.get('time_completed') == 'null' and d.get('n_jobs') == '(n_jobs + expected_n_jobs)' and sr.has_eq(st.where, 'id', 'in_batch_id') and \
-                any(p and text(c) == '(expected_n_jobs > 0)' for c, p in guard)
-            ctx.check(ok, 'R4', f'{r.file}::commit_batch_update::reopen batch', f'committing an update with jobs sets {d} on the batch; expected state running, time_completed NULL, n_jobs + expected_n_jobs', r.file, r.line_of(st))
-        elif first == ['job_groups']:
-            d = {c.parts[-1].lower(): text(v).lower() for c, v in st.sets if c.kind == 'col'}
-            der = [t for t in sf.from_tables(st.frm) if t.kind == 'derived']
-            ok = len(der) == 1
-            if ok:
-                sub = der[0].select
-                al = der[0].alias.lower()
-                inner = [sr.unwrap_sum(c) for c, a_ in sub.cols if (a_ or '').lower() == 'staged_n_jobs']
-                ok = sf.table_names(sub.frm) == ['job_groups_inst_coll_staging'] and sr.has_eq(sub.where, 'batch_id', 'in_batch_id') and sr.has_eq(sub.where, 'update_id', 'in_update_id') and \
-                    sorted(text(g).lower() for g in sub.group) == ['batch_id', 'job_group_id'] and len(inner) == 1 and inner[0] is not None and text(inner[0]).lower() == 'n_jobs' and \
-                    d.get('n_jobs') == f'(n_jobs + {al}.staged_n_jobs)' and d.get('time_completed') == 'null' and \
-                    d.get('state') == f"if(({al}.staged_n_jobs > 0), 'running', job_groups.state)"
-                on = [text(c).lower() for j in st.frm.joins for c in sf.conjuncts(j.on)]
-                ok = ok and f'(job_groups.batch_id = {al}.batch_id)' in on and f'(job_groups.job_group_id = {al}.job_group_id)' in on
-            ctx.check(ok, 'R4', f'{r.file}::commit_batch_update::reopen job groups', 'staged groups are not re-opened with n_jobs + their own staged job count (sum of that group\'s staging rows of this update)', r.file, r.line_of(st))
+    params = jg.routine_params(prog, 'commit_batch_update')
+    ctx.need({'in_batch_id', 'in_update_id'} <= set(params), f'commit_batch_update: parameters {params}')
+    tabs = ['batch_updates', 'job_groups_inst_coll_staging', 'batches', 'job_groups']
+    jg.need_no_trigger_feedback(prog, tabs)
+    schema = jg.full_schema(prog)
+
+    def stg(b, u, g, ic, tok, n):
+        return dict(batch_id=b, update_id=u, job_group_id=g, inst_coll=ic, token=tok, n_jobs=n, n_ready_jobs=0, ready_cores_mcpu=0)
+    staging = [stg(1, 2, 2, 'x', 0, 2), stg(1, 2, 2, 'y', 0, 1), stg(1, 2, 1, 'x', 0, 2), stg(1, 2, 1, 'y', 0, 1), stg(1, 2, 3, 'x', 0, 1),
+               stg(1, 2, 0, 'x', 0, 3), stg(1, 2, 0, 'x', 1, 1), stg(1, 2, 0, 'y', 0, 1),
+               stg(1, 3, 1, 'x', 0, 4), stg(1, 3, 0, 'x', 0, 4), stg(2, 2, 0, 'x', 0, 1), stg(2, 2, 1, 'x', 0, 1)]
+    prior = {0: 9, 1: 4, 2: 2, 3: 1, 4: 2}
+    rows = {
+        'batch_updates': [dict(batch_id=1, update_id=1, committed=1, n_jobs=9, start_job_id=1, time_committed=1),
+                          dict(batch_id=1, update_id=2, committed=0, n_jobs=5, start_job_id=10, time_committed=None),
+                          dict(batch_id=1, update_id=3, committed=0, n_jobs=4, start_job_id=15, time_committed=None),
+                          dict(batch_id=2, update_id=2, committed=0, n_jobs=1, start_job_id=3, time_committed=None)],
+        'job_groups_inst_coll_staging': staging,
+        'batches': [dict(id=1, state='complete', n_jobs=9, time_completed=500), dict(id=2, state='complete', n_jobs=2, time_completed=500)],
+        'job_groups': [dict(batch_id=1, job_group_id=g, state='complete', n_jobs=n, time_completed=500) for g, n in prior.items()] +
+                      [dict(batch_id=2, job_group_id=g, state='complete', n_jobs=2, time_completed=500) for g in (0, 1)],
+    }
+    w = jg.World(schema, rows)
+    it = jg.Interp(prog, w)
+    it.call('commit_batch_update', {'in_batch_id': 1, 'in_update_id': 2, 'in_timestamp': 1000})
+    for t_ in ('batches', 'job_groups'):
+        for row in w.rows[t_]:
+            for col, v in row.items():
+                ctx.need(v is not jg.UNK, f'commit_batch_update: {t_}.{col} receives a value the model cannot determine')
+    ctx.need([x for x in w.rows['batch_updates'] if x['batch_id'] == 1 and x['update_id'] == 2][0]['committed'] not in (0, None), 'commit_batch_update: the modelled update is not committed by the call')
+    b1 = [x for x in w.rows['batches'] if x['id'] == 1][0]
+    okb = (b1['state'], b1['time_completed'], b1['n_jobs']) == ('running', None, 14)
+    stmts = jg.jobs_writers(it, 'batches')
+    bline = r.line
+    for _, st, t_, _n in it.writes:
+        if t_ == 'batches':
+            bline = r.line_of(st)
+    ctx.check(okb, 'R4', f'{r.file}::commit_batch_update::reopen batch', f'committing an update with 5 jobs on a complete batch of 9 leaves the batch row (state, time_completed, n_jobs) = '
+              f'({b1["state"]}, {b1["time_completed"]}, {b1["n_jobs"]}); expected (running, NULL, 14) [statements writing batches: {stmts}]', r.file, bline)
+    want = {0: 14, 1: 7, 2: 5, 3: 2}
+    bad = None
+    for x in w.rows['job_groups']:
+        got = (x['state'], x['time_completed'], x['n_jobs'])
+        if x['batch_id'] == 1 and x['job_group_id'] in want:
+            exp = ('running', None, want[x['job_group_id']])
+        else:
+            exp = ('complete', 500, 2)
+        if got != exp and bad is None:
+            bad = (x['batch_id'], x['job_group_id'], got, exp)
+    gline = r.line
+    for _, st, t_, _n in it.writes:
+        if t_ == 'job_groups':
+            gline = r.line_of(st)
+    ctx.check(bad is None, 'R4', f'{r.file}::commit_batch_update::reopen job groups', (f'after committing update 2 (staged: group 2: 3 jobs, group 1: 3, group 3: 1, root: 5; update 3 and batch 2 have staging rows of '
+              f'their own) group {bad[1]} of batch {bad[0]} has (state, time_completed, n_jobs) = {bad[2]}, expected {bad[3]}: every staged group is re-opened with n_jobs + the sum of its own staging rows of '
+              f'this update, nothing else moves [statements writing job_groups: {jg.jobs_writers(it, "job_groups")}]') if bad else '', r.file, gline)
+    # idempotence of the already-committed path
+    snap = w.snapshot()
+    jg.Interp(prog, w).call('commit_batch_update', {'in_batch_id': 1, 'in_update_id': 2, 'in_timestamp': 2000})
+    same = all(snap[t_] == w.rows[t_] for t_ in ('batches', 'job_groups'))
+    ctx.check(same, 'R4', f'{r.file}::commit_batch_update::commit once', 'calling commit_batch_update again for the already committed update changes batches / job_groups again (n_jobs counted twice: the batch can never complete)',
+              r.file, r.line)
 
 
 READ_SITES = [('batch/batch/front_end/front_end.py', '_get_batch', 'batch'), ('batch/batch/front_end/front_end.py', '_get_job_group', 'group')]
@@ -211,7 +323,7 @@ def run(ctx: Ctx) -> None:
     ctx.rule('R4', 'commit with jobs re-opens the batch and each staged group with the right job counts', 2)
     ctx.rule('R5', 'readers take tallies from the tally table on the entity\'s own key and copy them unmodified', 4)
     prog = sf.load_program()
-    r12(ctx, prog)
-    r3(ctx, prog)
+    r123(ctx, prog)
+    r3_locks(ctx, prog)
     r4(ctx, prog)
     r5(ctx)
